@@ -89,10 +89,34 @@ def draw_common(rng, nv=None, compaction=None, small_batches=None):
         # longer than connectionTimeout, during which the receiver sends nothing and the sender drops
         # the connection (noted in DESIGN.md as an observation); keep the simulated machine fast enough
         cfg['cpu_cost'] = min(cfg['cpu_cost'], 1e-4)
+    if conf['appendEntriesBatchSizeBytes'] < 30:
+        # one-byte chunks: every entry becomes ~100 messages of ~90 bytes to every follower.  "Timely ticks"
+        # and links that carry the traffic are premises of the liveness properties, not their subject
+        # (this family decides nothing about performance): a fast machine and roomy sockets
+        cfg['cpu_cost'] = 2e-5
+        cfg['cap'] = max(cfg['cap'], 1 << 16)
     if cfg['cap'] <= 600:
         # tiny socket buffers only together with prompt delivery (see DESIGN 2.7)
         cfg['sched']['w_dlv'] = 12.0
         cfg['sched']['dlv_sizes'] = [0, 0, 0, 0, 0, 1, 64]
+    return cfg
+
+
+def apply_churn(rng, cfg):
+    """Turn a drawn configuration into a leader-churn run (see Scheduler._churn_event)."""
+    conf = cfg['conf']
+    s = cfg['sched']
+    s['churn'] = dict(dwell=rng.choice([[0.3, 0.6, 1.0, 1.5], [0.6, 1.0, 1.0, 2.5], [1.0, 1.5, 3.0]]),
+                      p_inflight=rng.choice([0.0, 0.003, 0.01, 0.03]),
+                      p_newleader=rng.choice([0.0, 0.3, 0.6, 0.9]), p_commit=rng.choice([0.0, 0.1, 0.5, 1.0]),
+                      burst=rng.choice([[0, 1, 2], [1, 2, 3], [0, 0, 1]]),
+                      modes=[(4, 'majority'), (2, 'apart'), (2, 'isolate_leader'), (1, 'heal'), (2, 'random')])
+    # entries travel in messages of their own, fragments are small: a cut lands between them
+    conf['appendEntriesBatchSizeBytes'] = rng.choice([30, 64, 64, 200, 1 << 16])
+    s['dlv_sizes'] = rng.choice([[0, 0, 0, 0, 1, 5, 17, 64], [0, 17, 64, 64, 200], [17, 64, 64], [64, 200], [30, 100, 100, 300]])
+    s['w_part'] = 0.0
+    s['w_heal'] = 0.0
+    s['w_hold'] = rng.choice([0.0, 0.02])
     return cfg
 
 
@@ -109,6 +133,9 @@ class Scheduler(object):
         self.stalled = {}          # host -> until T
         self.held = []
         self.dark = {}             # cid -> time since which the path is dark (for keep-alive)
+        self.queue = []            # events decided already (bursts)
+        self.churn_next = 0.0
+        self.churn_seen = {}
 
     # hooks for property-specific schedulers --------------------------------------
     def extra_choices(self, items):
@@ -179,7 +206,13 @@ class Scheduler(object):
                     c = ch[pid]
                     if c['ops'] and w.T - c.get('t_start', w.T) > s.get('child_max_delay', 0.2):
                         return [0.0, 'child', h.idx]
+        if self.queue:
+            return self.queue.pop(0)
         live = net.live_pipes()
+        if s.get('churn') and self.drain == 0:
+            ev = self._churn_event(dt, live)
+            if ev is not None:
+                return ev
         if self.drain > 0:
             self.drain -= 1
             if live and rng.random() < 0.7:
@@ -305,6 +338,73 @@ class Scheduler(object):
                 if b > m:
                     m = b
         return m
+
+    def _churn_event(self, dt, live):
+        """Leader-churn schedule family: the cluster is re-partitioned again and again - when a dwell time of the
+        order of an election time-out is over or, with a small probability per step, while bytes are in flight -
+        into a bare majority plus isolated nodes, everybody apart, the leader alone, a random split, or healed;
+        right after the cut every node that believes it leads gets a burst of commands (so leaders of different
+        terms pile up uncommitted tails that later meet in changing majorities)."""
+        w, rng, ch = self.w, self.rng, self.s['churn']
+        # adversarial instants: a node has just become leader / a leader has just decided something
+        focus = None
+        seen = self.churn_seen
+        for h in w.hosts:
+            nd = h.node
+            if nd is None:
+                seen.pop(h.idx, None)
+                continue
+            cur = (priv(nd, 'SyncObj', 'raftState') == LEADER, nd.raftCommitIndex)
+            old = seen.get(h.idx)
+            seen[h.idx] = cur
+            if old is None or not cur[0]:
+                continue
+            if not old[0] and rng.random() < ch['p_newleader']:
+                focus = h.idx
+                w.probe('churn_at_new_leader')
+            elif old[0] and cur[1] > old[1] and rng.random() < ch['p_commit']:
+                focus = h.idx
+                w.probe('churn_at_leader_commit')
+        if focus is None and not (w.T >= self.churn_next or (live and rng.random() < ch['p_inflight'])):
+            return None
+        self.churn_next = w.T + rng.choice(ch['dwell']) * self.cfg['conf']['raftMaxTimeout']
+        voters = [h.idx for h in w.hosts if not h.readonly]
+        n = len(w.hosts)
+        mode = wchoice(rng, ch['modes'])
+        g = [0] * n
+        lead = self.leader_idx()
+        if focus is not None and rng.random() < 0.7:
+            mode, lead = 'isolate_leader', focus
+        if mode == 'majority':
+            # a bare majority together (group 0), the others apart or together
+            rng.shuffle(voters)
+            rest = voters[len(voters) // 2 + 1:]
+            together = rng.random() < 0.3
+            for k, i in enumerate(rest):
+                g[i] = 1 if together else 1 + k
+        elif mode == 'apart':
+            for k, i in enumerate(voters):
+                g[i] = k
+        elif mode == 'isolate_leader' and lead is not None:
+            g[lead] = 1
+        elif mode == 'random':
+            k = rng.choice([2, 2, 3])
+            for i in voters:
+                g[i] = rng.randrange(k)
+        w.probe('churn_' + mode)
+        leaders = [h.idx for h in w.hosts if h.node is not None and priv(h.node, 'SyncObj', 'raftState') == LEADER]
+        for i in leaders:
+            for _ in range(rng.choice(ch['burst'])):
+                if self.nsubs >= self.s['max_subs']:
+                    break
+                tag = self.next_tag
+                self.next_tag += 1
+                self.nsubs += 1
+                self.queue.append([0.0, 'sub', i, 'append', tag])
+        if mode == 'heal' or max(g) == 0:
+            self.held = []
+            return [dt, 'heal']
+        return [dt, 'part', g]
 
     def _draw_partition(self):
         w, rng = self.w, self.rng
